@@ -12,7 +12,7 @@ D  waitnoecho follows the same conventions.
 """
 import errno
 
-from symx.spec import obligation, Int, OptInt, Bool, SKIP
+from symx.spec import obligation, Int, OptInt, Bool, Text, SKIP
 from harness.common import Skip, patched, pick, Clock
 from pexpect.exceptions import EOF, TIMEOUT
 from pexpect.spawnbase import SpawnBase
@@ -26,8 +26,9 @@ import pexpect.utils as U
 import ptyprocess.ptyprocess as PP
 import socket as _socket
 
-USES_BSTR = False
+USES_BSTR = True
 ENCODES = ['pexpect.expect.Expecter.expect_loop', 'pexpect.spawnbase.SpawnBase.expect_exact',
+           'pexpect.spawnbase.SpawnBase.expect', 'pexpect.spawnbase.SpawnBase.expect_list', 'pexpect.spawnbase.SpawnBase.expect_loop',
            'pexpect.pty_spawn.spawn.read_nonblocking', 'pexpect.pty_spawn.spawn.isalive',
            'pexpect.fdpexpect.fdspawn.read_nonblocking', 'pexpect.socket_pexpect.SocketSpawn.read_nonblocking',
            'pexpect.popen_spawn.PopenSpawn.read_nonblocking', 'pexpect.utils.select_ignore_interrupts',
@@ -610,7 +611,19 @@ def D_waitnoecho(t0, T, tmode, off):
     return 3
 
 
+@obligation(params=dict(s=Text(2, min=1), shape=Int(0, 6), tmode=Int(0, 3), entry=Int(0, 3), W=OptInt(1, 4), single=Int(0, 2)),
+            tags={2: 'list form', 3: 'single pattern form', 4: 'single EOF/TIMEOUT'}, timeout=200,
+            note='every entry point (expect, expect_exact, expect_list, expect_loop) hands the deadline loop the '
+                 'resolved timeout: -1 means the instance default, None and 0 are passed through (the C04.O1_plumbing '
+                 'obligation, part of this check too because the timeout conventions are this property\'s subject)')
+def A2_entry_timeouts(s, shape, tmode, entry, W, single):
+    from harness import C04
+    return C04.O1_plumbing(s, shape, tmode, entry, W, single)
+
+
 def dry_runs():
+    yield 'A2_entry_timeouts', dict(s='ab', shape=1, tmode=3, entry=0, W=None, single=0)
+    yield 'A2_entry_timeouts', dict(s='ab', shape=0, tmode=0, entry=3, W=2, single=1)
     for tmode in range(4):
         yield 'A_deadline', dict(t0=3, T=4, tmode=tmode, k0=0, k1=0, k2=2, d0=1, d1=1, d2=1, dar=1, pend=False)
         base = dict(now=1, w0=1, r0=0, st=0, e1=1, e2=2, e3=3, k2=0, k3=1, w1=2, w2=3, size=2, T=2, tmode=tmode, poll=False)
